@@ -52,9 +52,11 @@ func (s *ContextScope) Kill() {
 
 // Stop stop the scope context without error
 func (s *ContextScope) Stop() {
+	s.errorsMU.Lock()
 	if !s.IsDone() {
 		close(s.done)
 	}
+	s.errorsMU.Unlock()
 }
 
 // Err return cumulative error if the scope context contains any error
